@@ -4,7 +4,7 @@
 (* on (pruning is safe, soft <= partition, both back-end formulations have   *)
 (* the same feasible set) and prints every instance with its candidates and  *)
 (* optima so that the real code can be run on it (spec -> code).             *)
-EXTENDS Align, Json, Randomization, SequencesExt
+EXTENDS Align, Json, IOUtils, Randomization, SequencesExt
 
 CONSTANTS NA, MaxU, DVals, DE, Variant, EmitInstances, Sample,  \* Sample = 0: all instances, else that many random ones
           CheckInvariance   \* TRUE: also solve the annotator-reversed and the doubled instance (C09)
@@ -20,10 +20,15 @@ MkInst(sz, f) == [n |-> NA, sizes |-> sz, de |-> DE,
                            IF a < b THEN [i \in 1..sz[a] |-> [j \in 1..sz[b] |-> f[<<<<a, i - 1>>, <<b, j - 1>>>>]]]
                            ELSE <<>>]]]
 Sizes == {sz \in [AnnS -> 0..MaxU] : \E a \in AnnS : sz[a] > 0}
-Instances == UNION {{MkInst(sz, f) : f \in [CrossPairs(sz) -> DVals]} : sz \in Sizes}
+SoftMax == 6
+\* (an operator with a parameter: TLC evaluates constant-level definitions WITHOUT parameters eagerly at start-up, which for the
+\* sampled universes - 4^9 tables per size vector - never finished)
+InstancesOf(szs) == UNION {{MkInst(sz, f) : f \in [CrossPairs(sz) -> DVals]} : sz \in szs}
 
-Init == /\ inst \in (IF Sample = 0 THEN Instances
-                     ELSE UNION {{MkInst(sz, f) : f \in RandomSubset(Sample, [CrossPairs(sz) -> DVals])} : sz \in Sizes})
+\* Sample = 0: every instance of the universe; otherwise the instances are drawn by the harness (Sample random tables per size
+\* vector, from the harness's seed) and handed over as a file: RandomSubset over a set of 4^9 functions does not finish in TLC
+FileInstsOf(path) == LET f == JsonDeserialize(path) IN {f.insts[k] : k \in 1..Len(f.insts)}
+Init == /\ inst \in (IF Sample = 0 THEN InstancesOf(Sizes) ELSE FileInstsOf(IOEnv.TRACE_FILE))
         /\ phase = "start" /\ result = <<>>
 
 Solve ==
@@ -33,8 +38,10 @@ Solve ==
        IN result' = [ncands |-> Cardinality(cs),
                      pruned |-> MinPart(inst, AllUnits(inst), cs),
                      full   |-> MinPart(inst, AllUnits(inst), all),
-                     softp  |-> MinCover(inst, AllUnits(inst), cs),
-                     softf  |-> MinCover(inst, AllUnits(inst), all)]
+                     \* covers may re-use units: the search is exponential in the number of units; beyond SoftMax units
+                     \* the cover optima are not computed (-1) and the soft lemmas not checked on that instance
+                     softp  |-> IF NumUnits(inst) <= SoftMax THEN MinCover(inst, AllUnits(inst), cs) ELSE -1,
+                     softf  |-> IF NumUnits(inst) <= SoftMax THEN MinCover(inst, AllUnits(inst), all) ELSE -1]
     /\ phase' = "done"
     /\ inst' = inst
     /\ EmitInstances => PrintT(ToJson([inst |-> inst, result |-> result',
@@ -61,7 +68,7 @@ Done == phase = "done"
 Feasible      == Done => result.pruned < Big                  \* the candidates always admit a partition
 PruneSafe     == Done => result.pruned = result.full          \* discarding tuples above n*delta_empty never changes the minimum
 SoftPruneSafe == Done => result.softp = result.softf
-SoftLE        == Done => result.softp <= result.pruned        \* a partition is a cover
+SoftLE        == (Done /\ result.softp >= 0) => result.softp <= result.pruned        \* a partition is a cover
 AllNullPasses == SumCost(inst, AllNull(inst)) <= Crit(inst, Variant)   \* so the enumerator's last entry is always the all-empty tuple
 SingletonsAreCands ==                                         \* every unit alone is a candidate (cost <= C(n,2)*de)
     \A u \in AllUnits(inst) :
